@@ -8,6 +8,13 @@ import (
 	"time"
 )
 
+// two peers behind one NAT: same IP, different ports (and, being fresh
+// connections, the same first message id)
+var (
+	zzSrcMain  net.Addr = &net.UDPAddr{IP: net.IP{192, 0, 2, 7}, Port: 40001}
+	zzSrcOther net.Addr = &net.UDPAddr{IP: net.IP{192, 0, 2, 7}, Port: 40002}
+)
+
 type zzAddrS struct{ s string }
 
 func (a zzAddrS) Network() string { return "udp" }
@@ -148,18 +155,18 @@ func ZZ_C14_ReassembleAnyOrder() {
 	foreignAt := verifChoice("foreignAt", len(idx)+1)
 	for i, j := range idx {
 		if i == foreignAt {
-			rxSock.in = append(rxSock.in, zzPkt{other.out[0], zzAddrS{"other-source"}})
+			rxSock.in = append(rxSock.in, zzPkt{other.out[0], zzSrcOther})
 		}
-		rxSock.in = append(rxSock.in, zzPkt{txSock.out[j], zzAddrS{"src"}})
+		rxSock.in = append(rxSock.in, zzPkt{txSock.out[j], zzSrcMain})
 		if i == dupAt && i < len(idx)-1 {
-			rxSock.in = append(rxSock.in, zzPkt{txSock.out[j], zzAddrS{"src"}})
+			rxSock.in = append(rxSock.in, zzPkt{txSock.out[j], zzSrcMain})
 		}
 	}
 	short := []byte{0x41, 1, 2}
-	rxSock.in = append(rxSock.in, zzPkt{short, zzAddrS{"src"}})
+	rxSock.in = append(rxSock.in, zzPkt{short, zzSrcMain})
 	buf := make([]byte, 64)
 	m, from, err := rx.ReadFrom(buf)
-	verifAssert(err == nil && from.String() == "src", "the reassembled packet is delivered with its source")
+	verifAssert(err == nil && from.String() == zzSrcMain.String(), "the reassembled packet is delivered with its source")
 	verifAssert(zzSame(buf[:m], p), "byte-identical after reassembly, whatever the arrival order")
 	m, _, err = rx.ReadFrom(buf)
 	verifAssert(err == nil && zzSame(buf[:m], short), "a short-header packet passes through unchanged (and nothing else was emitted before it)")
